@@ -55,6 +55,23 @@ def cases(tier, seed):
     out.append({"spec": spec, "dict": d, "bits": rnd.choice([3, 4, 6]), "transfer": bool(rnd.randint(0, 1)),
                 "idx": len(out), "seed": seed})
     nf -= 1
+  # focus 2: a class entry for one pooling class only, while the model also holds the sibling pooling class
+  # (an entry for QAveragePooling2D says nothing about GlobalAveragePooling2D layers, and vice versa)
+  nf, j = (6 if tier == "quick" else 60), 0
+  while nf and j < 40000:
+    rnd = random.Random(seed * 15485867 + 2000003 + j)
+    j += 1
+    spec = gm.float_model_spec(rnd)
+    kinds = {l["t"] for l in spec["layers"]}
+    if not {"AveragePooling2D", "GlobalAveragePooling2D"} <= kinds:
+      continue
+    d = gm.quantization_dict(spec, rnd)
+    names = {l["name"] for l in spec["layers"] if l["t"] in ("AveragePooling2D", "GlobalAveragePooling2D")}
+    if ("QAveragePooling2D" in d) == ("QGlobalAveragePooling2D" in d) or names & set(d):
+      continue
+    out.append({"spec": spec, "dict": d, "bits": rnd.choice([3, 4, 6]), "transfer": bool(rnd.randint(0, 1)),
+                "idx": len(out), "seed": seed})
+    nf -= 1
   return out
 
 
